@@ -277,7 +277,7 @@ func runC18(c *vf.Ctx) {
 				}
 			}
 			c.Evals.Add(n)
-		c.DistinctN.Add(n)
+			c.DistinctN.Add(n)
 			c.Add("asc_cases", n)
 			c.Add("asc_full_axis_cases", n)
 		})
